@@ -44,15 +44,15 @@ check(
 check(
     "C02",
     runs=[dict(harness="C02_inverse", flavour="plain")],
-    rule=("ifft/IfftPlan for every n (quick: n<=512 + a residue class of ..2048; thorough: all n<=2048) against the long-double inverse "
+    rule=("ifft/IfftPlan for every n (quick: n<=1024 + a residue class of ..8192; thorough: all n<=8192, three inputs each) against the long-double inverse "
           "DFT and as round trip; irfft/IfftPlanR for every even n in both input forms (full spectrum, first n/2+1 bins) against the real "
           "signal whose exact DFT was supplied, odd n must throw; stft->istft for every (window of 11 kinds, overlap, nfft, range, method) "
           "accepted by iscola, on signals whose length is not hop aligned, judged per sample where the accumulated window weight is "
           "non-zero, and all samples must be finite; iscola cross-checked against a long-double overlap sum. distinct = hash of "
           "(entry point, configuration, input bits)."),
-    exhaustive_subspaces={"quick": ["ifft/irfft: all n<=512", "stft: all overlaps 0..nwin-1 for nwin<=64 x 11 windows x 2 methods x 3 ranges"],
-                          "thorough": ["ifft: all n<=2048; irfft: all even n<=2048, all odd n rejected", "stft: all overlaps 0..nwin-1 for nwin<=64 x 11 windows x 2 methods x 3 ranges"]},
-    min_distinct={"quick": 5000, "thorough": 20000},
+    exhaustive_subspaces={"quick": ["ifft/irfft: all n<=1024", "stft: all overlaps 0..nwin-1 for nwin<=64 x 11 windows x 2 methods x 3 ranges"],
+                          "thorough": ["ifft: all n<=8192; irfft: all even n<=8192, all odd n rejected", "stft: all overlaps 0..nwin-1 for nwin<=128 x 11 windows x 2 methods x 3 ranges"]},
+    min_distinct={"quick": 20000, "thorough": 150000},
     min_obs={"quick": {"cola_pairs_accepted": 100, "odd_rejections_seen": 500}, "thorough": {"cola_pairs_accepted": 100, "odd_rejections_seen": 2000}},
     technique="runtime monitor: long-double inverse-DFT oracle, exception monitor for odd n, per-sample reconstruction oracle with harness-computed window weights",
     level_text=("Every inverse-transform entry point is executed for every length in the stated ranges and compared with an "
@@ -151,16 +151,16 @@ check(
 check(
     "C07",
     runs=[dict(harness="C07_fir", flavour="plain")],
-    rule=("FirFilter and FftFilter (real, complex) from rest for coefficient lengths 2..64, every FFT block boundary (2^k-2..2^k+2, k=7..10) "
-          "and sampled lengths to 1024, coefficient kinds {random, symmetric, sparse, single tap first/last}, input lengths around the block "
+    rule=("FirFilter and FftFilter (real, complex) from rest for coefficient lengths 2..128, every FFT block boundary (2^k-2..2^k+2, k=7..10) "
+          "and sampled lengths to 1024 (thorough: every length 2..1024), coefficient kinds {random, symmetric, sparse, single tap first/last}, input lengths around the block "
           "size and long inputs (2e4 quick / 1e5 thorough) with random, impulsive and 1e+-12 dynamic range content, against the long-double "
           "sum y[i]=sum conj(c[k]) x[i-k] (direct: max(8,m+4)*eps*sum|c||x| per sample; FFT: 64*eps*log2(fftlen)*sum|c|*max|x|), emitted count "
-          "floor(len/block)*block and FftFilter == FirFilter on the emitted prefix; xcorr for all (n1,n2) in 1..48^2 real and complex plus "
-          "sampled pairs to 5000, every lag; MAFilter vs FirFilter(ones(n)/n) and vs a long-double running mean. distinct = hash of "
+          "floor(len/block)*block and FftFilter == FirFilter on the emitted prefix; xcorr for all (n1,n2) in 1..48^2 (thorough 1..96^2) real and complex plus "
+          "sampled pairs to 5000, every lag; MAFilter (n = 1..20 / 1..130 and powers of two to 1000, wide-dynamic-range and burst inputs) vs FirFilter(ones(n)/n) and vs the exact window mean, tolerance scaled by the largest of the last 2n inputs. distinct = hash of "
           "(configuration, coefficient and input bits)."),
     exhaustive_subspaces={"quick": ["xcorr: all length pairs (n1,n2) in 1..48 x 1..48, real and complex"],
-                          "thorough": ["xcorr: all length pairs (n1,n2) in 1..48 x 1..48, real and complex"]},
-    min_distinct={"quick": 5000, "thorough": 8000},
+                          "thorough": ["xcorr: all length pairs (n1,n2) in 1..96 x 1..96, real and complex", "every coefficient length 2..1024 x 11 input lengths x real/complex"]},
+    min_distinct={"quick": 7000, "thorough": 35000},
     technique="runtime monitor: long-double evaluation of the defining convolution / correlation sums as oracle, direct-vs-FFT differential",
     level_text=("Filters and correlations are executed over the stated grid and each output sample is compared with the defining sum in "
                 "extended precision with a rounding-error-model tolerance; held on the evaluations in the evidence."),
@@ -263,16 +263,16 @@ check(
 check(
     "C12",
     runs=[dict(harness="C12_adaptive", flavour="plain")],
-    rule=("LMS, NLMS and RLS filters, real and complex, lengths {2..10,12,16,24,33,48,64}, random step sizes / leakage / forgetting factors "
+    rule=("LMS, NLMS and RLS filters, real and complex, lengths {1..17,20,24,31,32,33,48,64}, random step sizes / leakage / forgetting factors "
           "0.9..1 / diagonal loads 1e-2..1e4, random unknown systems and random lock schedules: streams fed one sample at a time - e == d-y "
           "exactly, y equals sum_j c_j x[k-j] with c = coeffs() read BEFORE the call ((L+8)*eps*sum|c||x|), coefficients bitwise unchanged "
           "while locked, coefficient trajectory within 1e-7 of a long-double reference recursion; the same stream in random frames must give "
           "the same y/e; locked filter == fixed FIR with coeffs(); noise-free convergence of NLMS (after ceil(60L/(mu(2-mu))) samples) and RLS "
           "(40L+200, extended until the initial regularisation lambda^N/load has decayed below 3e-4 of the data term) to misalignment < 1e-6; real RLS after N<=200 samples vs the long-double solution of the "
           "exponentially weighted, diagonally regularised normal equations. distinct = (configuration, input bits)."),
-    min_distinct={"quick": 600, "thorough": 1800},
-    min_obs={"quick": {"locked_samples": 5000, "adapting_samples": 20000, "convergence_runs": 60, "rls_batch_runs": 30},
-             "thorough": {"locked_samples": 15000, "adapting_samples": 60000, "convergence_runs": 180, "rls_batch_runs": 90}},
+    min_distinct={"quick": 6000, "thorough": 400000},
+    min_obs={"quick": {"locked_samples": 50000, "adapting_samples": 200000, "convergence_runs": 600, "rls_batch_runs": 300},
+             "thorough": {"locked_samples": 3000000, "adapting_samples": 12000000, "convergence_runs": 40000, "rls_batch_runs": 20000}},
     technique="runtime monitor: per-sample a-priori oracle using coeffs() read before each call, long-double shadow recursion, batch least-squares reference",
     level_text=("Each filter is driven sample by sample with its coefficients observed before every call, so that the a-priori property, "
                 "the error identity and the lock are judged per sample; convergence and the least-squares equivalence are judged on "
@@ -292,7 +292,7 @@ check(
           "bin spacing: f[argmax] must be the listed frequency nearest the tone; mscohere in [0,1], == 1 for scaled copies, and equal to a "
           "long-double reference coherence for filtered copies and independent noise; short overloads == explicit calls. "
           "distinct = (configuration, signal bits)."),
-    min_distinct={"quick": 5000, "thorough": 20000},
+    min_distinct={"quick": 10000, "thorough": 300000},
     min_obs={"quick": {"label_checks_complex": 600, "label_checks_real": 300, "density_sum_checks": 300, "mscohere_checks": 200},
              "thorough": {"label_checks_complex": 2400, "label_checks_real": 1200, "density_sum_checks": 1200, "mscohere_checks": 800}},
     technique="runtime monitor: complete long-double reference Welch/coherence estimator, label-aware comparison, independent conservation identity and tone-labelling oracle",
@@ -312,7 +312,7 @@ check(
           "within 1e-3*A for tones at the guard frequency max(2tw,6/M), at 0.5-guard and random in between; Tuner for fs in {8,...,65537,96000,1e5,192000,1e6}, "
           "integer / half-integer / random fractional / band-edge f, streams of 3..9*fs samples in random frames: every sample == "
           "x[k]*exp(2*pi*i*f*k/fs) with the phase reduced exactly in long double. distinct = (configuration, input bits)."),
-    min_distinct={"quick": 1500, "thorough": 6000},
+    min_distinct={"quick": 2500, "thorough": 20000},
     min_obs={"quick": {"hilbert_filter_tones": 200, "tuner_streams_fractional_f": 10, "tuner_streams_integer_f": 5},
              "thorough": {"hilbert_filter_tones": 700, "tuner_streams_fractional_f": 20, "tuner_streams_integer_f": 10}},
     technique="runtime monitor: definition-based oracles in long double (DFT of the analytic signal, delayed/quadrature tone, exact phase of the stream index)",
@@ -343,17 +343,18 @@ check(
 check(
     "C16",
     runs=[dict(harness="C16_order", flavour="plain")],
-    rule=("sort (ascending and descending) and median for every length 1..2000 (quick: 1..300 + a residue class) x content {distinct, "
-          "repeated, sorted, reversed, constant, plateaus with signed zeros}: output ordered, index vector a permutation, sorted[i] == "
-          "x[idx[i]] bitwise, input untouched; MedianFilter (initial history value) and medfilt (zero padded, centred) for every order 3..64 "
-          "over streams of 2500 / 10000 samples in random frames, compared exactly with a brute-force window median; corr Pearson / Spearman / "
-          "Kendall for all permutations of length <= 7 and random Gaussian pairs to n = 2000 against O(n^2) long-double definitions, "
+    rule=("sort (ascending and descending) and median for every length 1..4000 (quick: 1..400 + a residue class) x content {distinct, "
+          "repeated, sorted, reversed, constant, plateaus with signed zeros} plus shuffled draws from alphabets of 2, 3, 5, 8 and n/4 values for the median: output ordered, index vector a permutation, sorted[i] == "
+          "x[idx[i]] bitwise, input untouched; MedianFilter (initial history value) and medfilt (zero padded, centred) for every order 3..64 (thorough: 3..160) "
+          "over streams of 2500 / 30000 samples in random frames, compared exactly with a brute-force window median; corr Pearson / Spearman / "
+          "Kendall for all permutations of length <= 7 (thorough: 8; pairs listed in both orders) and random Gaussian pairs to n = 2000 against O(n^2) long-double definitions, "
           "symmetry, range [-1,1], and +-1 for strictly monotone (rank) / linear (Pearson) relations given in random order. "
           "distinct = (function, configuration, input bits)."),
     exhaustive_subspaces={"quick": ["all permutations of length <= 7 for the three correlation coefficients", "all median filter orders 3..64"],
-                          "thorough": ["all permutations of length <= 7 for the three correlation coefficients", "all median filter orders 3..64", "all sort/median lengths 1..2000 x 6 content kinds"]},
-    min_distinct={"quick": 10000, "thorough": 30000},
-    min_obs={"quick": {"corr_pairs": 5000, "median_filter_outputs": 100000}, "thorough": {"corr_pairs": 5000, "median_filter_outputs": 1000000}},
+                          "thorough": ["all permutations of length <= 8 for the three correlation coefficients", "all median filter orders 3..160", "all sort/median lengths 1..4000 x 6 content kinds"]},
+    min_distinct={"quick": 25000, "thorough": 300000},
+    min_obs={"quick": {"corr_pairs": 10000, "median_filter_outputs": 100000, "median_tied_inputs": 5000},
+             "thorough": {"corr_pairs": 100000, "median_filter_outputs": 5000000, "median_tied_inputs": 100000}},
     technique="runtime monitor: brute-force order-statistic and O(n^2) rank-correlation references as oracle, exhaustive permutations",
     level_text=("Sorting, medians and correlation coefficients are executed over the stated lengths, orders and all short permutations "
                 "and compared with brute-force definitions; held on the evaluations counted in the evidence."),
@@ -373,7 +374,7 @@ check(
           "distinct = (function, argument bits)."),
     exhaustive_subspaces={"quick": ["upsample/downsample/repelem/delayseq/zeropad/flip for every n<=12, factor, phase, shift", "linspace n=1..100"],
                           "thorough": ["upsample/downsample/repelem/delayseq/zeropad/flip for every n<=12, factor, phase, shift", "linspace n=1..100", "integer arange for every start, stop, step in [-12,12]"]},
-    min_distinct={"quick": 300000, "thorough": 2000000},
+    min_distinct={"quick": 2500000, "thorough": 80000000},
     technique="runtime monitor: long-double evaluation of each mathematical definition as oracle with rounding-model tolerances",
     level_text=("Every toolbox function is executed on special points and log-uniform random arguments and compared with its definition "
                 "in extended precision; shape functions are enumerated for small sizes. Held on the evaluations counted in the evidence."),
@@ -392,7 +393,7 @@ check(
           "the first report is judged against a long-double normalised matched-filter statistic (frame and offset of the first sample above "
           "1.07*thr, bitwise aligned preamble samples, score >= 0.97 at the true end; silence when the statistic stays below 0.93*thr; "
           "streams entering the band first are skipped and counted). distinct = (configuration, signal bits)."),
-    min_distinct={"quick": 700, "thorough": 4000},
+    min_distinct={"quick": 7000, "thorough": 300000},
     min_obs={"quick": {"delay_cases": 500, "detections_at_true_preamble_end": 100, "detector_streams_expecting_silence": 10},
              "thorough": {"delay_cases": 1000, "detections_at_true_preamble_end": 1000, "detector_streams_expecting_silence": 100}},
     technique="runtime monitor: ground truth by construction for delays; long-double matched-filter statistic as oracle for the first detection event of a stream",
@@ -411,9 +412,9 @@ check(
           "6*sqrt(24/n) of 3, complex components uncorrelated and of equal power; noise-free tones (on/off bin) with 1..5 harmonics at "
           "-10..-40 dBc, >= 100 bins apart, lengths 2048..2^17 incl. non powers of two, amplitudes over 80 dB: thd within 0.1 dB, component "
           "frequencies within 0.1 bin, harmonic levels within 0.1 dB, sinad within 1.5 dB, thd/sinad/snr scale invariant within 1e-3 dB; "
-          "rng(seed) for seeds 0..1000 (quick: every 7th): an interleaved rand/randn/randi/awgn script replays bitwise and every bounded draw "
+          "rng(seed) for seeds 0..20000 (quick: every 7th of 0..3000): an interleaved rand/randn/randi/awgn script replays bitwise and every bounded draw "
           "stays inside its inclusive bounds. distinct = (configuration, signal bits)."),
-    min_distinct={"quick": 250, "thorough": 1500},
+    min_distinct={"quick": 700, "thorough": 20000},
     min_obs={"quick": {"awgn_cases_real": 25, "awgn_cases_complex": 25, "thd_cases": 50, "replayed_scripts": 100},
              "thorough": {"awgn_cases_real": 100, "awgn_cases_complex": 100, "thd_cases": 250, "replayed_scripts": 1000}},
     technique="runtime monitor: statistical oracles with explicit standard-error tolerances on y-x, analytic tone/harmonic ground truth, bitwise replay of generator scripts",
@@ -434,7 +435,7 @@ check(
           "10-90% time == configured attack/release time (+-2 samples +-1%); Agc with targets 0.01..100, inputs over 80 dB, averaging "
           "lengths 1..1000, real and complex constant-envelope inputs in random frames: settled output power within 1% of the target when "
           "the needed gain is below max_gain, gain never above max_gain. distinct = (configuration, signal bits)."),
-    min_distinct={"quick": 1500, "thorough": 8000},
+    min_distinct={"quick": 3500, "thorough": 70000},
     min_obs={"quick": {"static_levels_judged": 100000, "timing_measurements": 150, "agc_runs_inside_gain_range": 20, "limiter_ceiling_samples": 1000000},
              "thorough": {"static_levels_judged": 1000000, "timing_measurements": 800, "agc_runs_inside_gain_range": 100, "limiter_ceiling_samples": 10000000}},
     technique="runtime monitor: long-double static characteristic as oracle on level sweeps, range/ceiling invariants on arbitrary signals, step-response timing monitor",
